@@ -371,6 +371,13 @@ class _SimPath:
     def exists(p):
         return CURRENT.isfile(_real_os.fspath(p))
 
+    @staticmethod
+    def isdir(p):
+        p = _real_os.fspath(p)
+        if isinstance(p, str) and p.startswith(ROOT):
+            return not CURRENT.isfile(p)  # every simulated path that is not a file is a directory
+        return posixpath.isdir(p)
+
 
 class SimOS:
     """Stand-in for the ``os`` module inside jinja2.bccache / jinja2.loaders."""
